@@ -2,11 +2,24 @@
 """Prints the markdown table of seeded changes for DESIGN.md section 11 from seeded/*/meta.json."""
 import json, glob, os
 ROOT = os.path.dirname(os.path.dirname(os.path.abspath(__file__)))
-print("| Seeded change | What it does / needs | Caught by (quick) | Not caught by (ran, stayed green) |")
+rows = [json.load(open(mp)) for mp in sorted(glob.glob(os.path.join(ROOT, "seeded", "C*-m*", "meta.json")))]
+print("| Seeded change | What it does | Caught by (quick tier; **own property** in bold) | Ran and stayed green |")
 print("|---|---|---|---|")
-for mp in sorted(glob.glob(os.path.join(ROOT, "seeded", "C*-m*", "meta.json"))):
-    m = json.load(open(mp))
+own = other_only = missed = 0
+for m in rows:
     s = m["summary"].replace("|", "\\|")
-    if len(s) > 230: s = s[:227] + "..."
+    s = s.split(" - ", 1)[1] if " - " in s[:14] else s
+    if len(s) > 200:
+        s = s[:197] + "..."
+    caught = [f"**{c}**" if c == m["breaks_property"] else c for c in m["caught_by"]]
     inc = (" (inconclusive: " + ", ".join(m["inconclusive"]) + ")") if m.get("inconclusive") else ""
-    print(f"| `{m['id']}` | {s} | {', '.join(m['caught_by']) or '-'}{inc} | {', '.join(m['not_caught_by']) or '-'} |")
+    note = (" - " + m["note"]) if m.get("note") else ""
+    print(f"| `{m['id']}` | {s}{note} | {', '.join(caught) or '-'}{inc} | {', '.join(m['not_caught_by']) or '-'} |")
+    if m["breaks_property"] in m["caught_by"]:
+        own += 1
+    elif m["caught_by"]:
+        other_only += 1
+    else:
+        missed += 1
+print()
+print(f"{len(rows)} seeded changes: {own} caught by the check of their own property, {other_only} only by a neighbouring check, {missed} by none of the checks run.")
